@@ -18,7 +18,7 @@ let handle = function
       fs_canon = List.map (fun x -> let (p, i) = kv x in (path p, nat_of_int (int_of_string i))) (sec "C");
       fs_children = List.map (fun x -> let (p, c) = kv x in (path p, (if c = "!" then None else Some (if c = "" then [] else List.map path (String.split_on_char ',' c))))) (sec "L");
       fs_unreadable = List.map path (sec "U") } in
-    let r = resolve_files (nat_of_int 16) fs (List.map path (sec "S")) (List.map path (sec "R")) in
+    let r = resolve_files (nat_of_int (List.length (sec "C") + 2)) fs (List.map path (sec "S")) (List.map path (sec "R")) in
     let h p = M_doc.hex_of_codes p in
     let diag = function
       | DNotFound p -> "notfound:" ^ h p | DNotSlice p -> "notslice:" ^ h p | DDirAsSource p -> "dir:" ^ h p | DUnreadableDir p -> "unreadabledir:" ^ h p
